@@ -35,11 +35,18 @@ def main() -> int:
 	ap.add_argument('--tier', default='quick')
 	ap.add_argument('--checks', default=None)
 	ap.add_argument('--skip-tests', action='store_true')
+	ap.add_argument('--stored', action='store_true', help='re-confirm the change kept under seeded/<id>-<name>/')
 	args = ap.parse_args()
 	pid = args.prop
 	patch = os.path.join(args.src, f'{pid}_patch.diff')
 	demo = os.path.join(args.src, f'{pid}_demo.py')
 	note = os.path.join(args.src, f'{pid}_note.md')
+	out_dir = os.path.join(ROOT, 'seeded', f'{pid}-{args.name}')
+	previous = {}
+	if os.path.exists(os.path.join(out_dir, 'meta.json')):
+		previous = json.load(open(os.path.join(out_dir, 'meta.json')))
+	if args.stored:
+		patch, demo, note = os.path.join(out_dir, 'patch.diff'), os.path.join(out_dir, 'demo.py'), os.path.join(out_dir, 'no-note')
 	base = '/dev/shm' if os.path.isdir('/dev/shm') else tempfile.gettempdir()
 	tmp = tempfile.mkdtemp(prefix='verif-seed-', dir=base)
 	meta = {'property': pid, 'name': args.name, 'ran': []}
@@ -72,6 +79,12 @@ def main() -> int:
 			meta['tests_313'] = out.strip().splitlines()[-1]
 			shutil.rmtree(os.path.join(b, '.cache'), ignore_errors=True)
 			meta['tests_unchanged'] = bool(re.search(r'\b334 passed', meta['tests_312'])) and bool(re.search(r'^341 passed', meta['tests_313']))
+		else:
+			for k in ('tests_312', 'tests_313', 'tests_unchanged'):
+				if k in previous:
+					meta[k] = previous[k]
+		# earlier outcomes are kept: a change that was missed first and caught after strengthening shows both
+		meta['history'] = previous.get('history', []) + ([{k: {'caught': v.get('caught'), 'exit': v.get('exit')} for k, v in previous['checks'].items()}] if isinstance(previous.get('checks'), dict) else [])
 		checks = (args.checks or pid).split(',')
 		meta['checks'] = {}
 		for c in checks:
@@ -84,12 +97,14 @@ def main() -> int:
 			print(f'check {c} ({args.tier}) on patched copy: exit {rc}')
 			for v in viol:
 				print('   ', v[:300])
-		out_dir = os.path.join(ROOT, 'seeded', f'{pid}-{args.name}')
 		os.makedirs(out_dir, exist_ok=True)
-		shutil.copy(patch, os.path.join(out_dir, 'patch.diff'))
-		shutil.copy(demo, os.path.join(out_dir, 'demo.py'))
+		if not args.stored:
+			shutil.copy(patch, os.path.join(out_dir, 'patch.diff'))
+			shutil.copy(demo, os.path.join(out_dir, 'demo.py'))
 		if os.path.exists(note):
 			meta['needs_to_manifest'] = open(note).read()
+		elif 'needs_to_manifest' in previous:
+			meta['needs_to_manifest'] = previous['needs_to_manifest']
 		with open(os.path.join(out_dir, 'meta.json'), 'w') as f:
 			json.dump(meta, f, indent=1)
 		print(json.dumps({k: v for k, v in meta.items() if k not in ('ran', 'needs_to_manifest')}, indent=1)[:1500])
